@@ -233,3 +233,31 @@ Definition step_wf (sh : option Z) (st : fstep) : bool :=
   | SAddF c | SMulF c | SIAddF c | SIMulF c => wf_afib c && within sh (af_elems c)
   | _ => true
   end.
+
+(* ------------------------------------------------------------------ round 4: the operands of a chain
+   are objects that stay around.  No step changes a fiber operand c; the object a0 IS the
+   accumulator until the first value-returning step rebinds the accumulator to a new fiber, and
+   keeps the content it had then (the results of + and * are built from NEW payload boxes —
+   Payload.__add__/__mul__ return Payload(ans) — so nothing is shared with the operands). *)
+Definition is_inplace (st : fstep) : bool :=
+  match st with SIAddF _ | SIMulF _ | SIAddS _ | SIMulS _ => true | _ => false end.
+
+Definition step_operand (st : fstep) : option afib :=
+  match st with SAddF c | SMulF c | SIAddF c | SIMulF c => Some c | _ => None end.
+
+Definition step_operands (steps : list fstep) : list afib :=
+  flat_map (fun st => match step_operand st with Some c => [c] | None => [] end) steps.
+
+(* content of the object a0 after the chain: [same] = the accumulator is still that object *)
+Fixpoint chain_a0 (same : bool) (a0cur : zfib) (acc : afib) (steps : list fstep) : zfib :=
+  match steps with
+  | [] => a0cur
+  | st :: steps' =>
+    let acc' := chain_step acc st in
+    let same' := same && is_inplace st in
+    chain_a0 same' (if same' then af_elems acc' else a0cur) acc' steps'
+  end.
+
+(* the fiber operand that is added to the object a0 once more at the end: the first one of the chain *)
+Definition re_operand (steps : list fstep) : option afib :=
+  match step_operands steps with c :: _ => Some c | [] => None end.
